@@ -176,6 +176,10 @@ def check_cfg(ctx, fx, cfg):
     # before it waits — an abandoned earlier join cannot block a later join / consume (shared with C17)
     from props import c17
     c17.check_join(ctx, fx, cfg, "R02.6")
+    # R02.7 closed list of hand-written poll functions (a Pending path that registers no waker hangs its awaiter; whether it
+    # does is not decidable here, so a new implementation is reported for review): today only `impl Future for Addr`
+    polls = sorted((i.get("trait"), i["self"]) for i in fx.d["impls"] if i.get("trait") in ("futures_core::stream::Stream", "core::future::future::Future", "futures_core::future::FusedFuture", "futures_core::stream::FusedStream", "futures_sink::Sink", "core::future::into_future::IntoFuture"))
+    ctx.require(polls == [("core::future::future::Future", "addr::Addr<A>")], "R02.7", "hand-written-polls@" + cfg, "a new hand-written Future / Stream / Sink implementation in the crate: its Pending paths must register a waker — found %s" % polls, site="crate", detail=polls)
     # R02.4 leak census
     leaks = [(f["def"], t["callee"], t["l"]) for f, bi, t in graph.all_calls(fx, is_leak)]
     ctx.require(not leaks, "R02.4", "no-leak-primitive@" + cfg, "leak primitive used (a leaked payload / receiver would leave callers hanging): %s" % leaks, site=leaks[0][2] if leaks else "crate", detail={"calls_scanned": sum(1 for _ in graph.all_calls(fx, lambda t: True)), "positive_control": "is_leak(core::mem::forget) holds"})
